@@ -19,6 +19,9 @@ func getenv(k string) string { return os.Getenv(k) }
 
 const maxEpoch = uint64(1)<<63 - 1
 
+// share (%) of the generated histories in which queries land inside a refresh
+const duringShare = 40
+
 type accountPart struct {
 	text  string
 	names []string
@@ -469,6 +472,10 @@ func gen(r *Rand) Input {
 		} else {
 			in.Ops = append(in.Ops, genQuery())
 		}
+	}
+	// queries that land inside a refresh (gen_during.go)
+	if r.Chance(duringShare, 100) {
+		in.Ops = withDuring(r, in.Ops, genRefresh, genQuery)
 	}
 	// make sure the history ends by looking at the result
 	in.Ops = append(in.Ops, genQuery())
